@@ -318,6 +318,22 @@ type c14Scenario struct {
 	Reads    bool   `json:"reads,omitempty"`
 	ErrAt    int    `json:"err_at,omitempty"`
 	ErrClass string `json:"err_class,omitempty"` // where|what of the failing step, from the dry run (signature only)
+	// admission-fault runs (zz_verif_c14_adm_test.go): Perm fixes the order in which the state visits its notifiers for ANY
+	// permutation (rank of the j-th subscriber of the set = Perm[j]); TxReads numbers the Gets made inside write transactions;
+	// Scope "op" = the admission of every operation is read from the store right after it (returned nil AND stored), the
+	// operation kind "redo" repeats operation Ref iff that one returned an error (what a caller does after a failure);
+	// ErrSub = the subscriber whose own job shelf the failing step touches (signature only); Corrupt "<sub>@<op>" = before
+	// operation <op> the job shelf of <sub> already holds an unreadable entry under that operation's event key; Late = this
+	// subscriber registers only after the restart
+	Perm    string `json:"perm,omitempty"`
+	TxReads bool   `json:"tx_reads,omitempty"`
+	Scope   string `json:"scope,omitempty"`
+	ErrSub  string `json:"err_sub,omitempty"`
+	Corrupt string `json:"corrupt,omitempty"`
+	Late    string `json:"late,omitempty"`
+	// Foreign = this subscriber keeps its jobs through ANOTHER store object (a second wrapper around the same file): its Save
+	// refuses every event inside the admission transaction ("trying to save Event on different DB")
+	Foreign string `json:"foreign,omitempty"`
 }
 
 // c14SubsOf lists the subscribers that a scenario registers.
@@ -346,6 +362,21 @@ func (sc c14Scenario) key() string {
 	if sc.Seeded {
 		k += "|seeded:" + sc.Only + ":" + strconv.Itoa(sc.SeedRetries)
 	}
+	if sc.Perm != "" {
+		k += "|perm:" + sc.Perm
+	}
+	if sc.Scope != "" {
+		k += "|scope:" + sc.Scope
+	}
+	if sc.Corrupt != "" {
+		k += "|corrupt:" + sc.Corrupt
+	}
+	if sc.Late != "" {
+		k += "|late:" + sc.Late
+	}
+	if sc.Foreign != "" {
+		k += "|foreign:" + sc.Foreign
+	}
 	return k
 }
 
@@ -353,6 +384,7 @@ type c14SubSpec struct {
 	name   string
 	filter func(Event) bool // nil = unfiltered
 	delay  time.Duration    // 0 = default
+	sel    string           // generated sets: "tx" | "pay" (what the filter selects, for the reference predicate)
 }
 
 const c14PubType, c14PrivType = "application/did+json", "application/vc+json"
@@ -371,16 +403,45 @@ func c14Subs(set string) []c14SubSpec {
 			{name: "all"},
 		}
 	}
-	return nil
+	// generated sets: "k:<kinds>" = one subscriber per letter, t = transaction-event filter, p = payload-event filter
+	// ("k:tpp" = {t0, p1, p2}); "pfx:<kinds>" = the same with names of which the first is a prefix of the others' shelf
+	// names ("q", "q_jobs", "q_jobs_jobs": shelves _q_jobs, _q_jobs_jobs, …)
+	gen := ""
+	switch {
+	case strings.HasPrefix(set, "k:"):
+		gen = set[2:]
+	case strings.HasPrefix(set, "pfx:"):
+		gen = set[4:]
+	}
+	var out []c14SubSpec
+	for j, ch := range gen {
+		sp := c14SubSpec{name: string(ch) + strconv.Itoa(j)}
+		if strings.HasPrefix(set, "pfx:") {
+			sp.name = "q" + strings.Repeat("_jobs", j)
+		}
+		switch ch {
+		case 't':
+			sp.sel, sp.filter = "tx", func(e Event) bool { return e.Type == TransactionEventType }
+		case 'p':
+			sp.sel, sp.filter = "pay", func(e Event) bool { return e.Type == PayloadEventType }
+		}
+		out = append(out, sp)
+	}
+	return out
 }
 
 // c14RegName is the name under which a subscriber is registered: a sorting prefix fixes the order in which the
 // state visits its notifiers.
 func c14RegName(sc c14Scenario, sub string) string {
+	if strings.HasPrefix(sc.Set, "pfx:") {
+		return sub // a name that is a prefix of another sorts first: one visiting order only
+	}
 	subs := c14Subs(sc.Set)
 	for i, sp := range subs {
 		if sp.name == sub {
-			if sc.Order == "desc" {
+			if len(sc.Perm) == len(subs) {
+				i = int(sc.Perm[i] - '0')
+			} else if sc.Order == "desc" {
 				i = len(subs) - 1 - i
 			}
 			return string(rune('a'+i)) + "_" + sub
@@ -535,7 +596,14 @@ func (rn *c14Run) open(path string) {
 	life, kv := rn.life, rn.kv
 	for _, sp := range rn.subs {
 		sp := sp
+		if rn.life == 0 && sp.name == rn.sc.Late {
+			rn.notifs = append(rn.notifs, nil) // registers only after the restart
+			continue
+		}
 		opts := []NotifierOption{WithPersistency(rn.kv)}
+		if sp.name == rn.sc.Foreign {
+			opts = []NotifierOption{WithPersistency(fault.Wrap(rn.inner))}
+		}
 		if sp.filter != nil {
 			opts = append(opts, WithSelectionFilter(sp.filter))
 		}
@@ -616,7 +684,9 @@ func (rn *c14Run) receive(sp c14SubSpec, life int, kv *fault.KV, e Event) (bool,
 
 func (rn *c14Run) closeInstance() {
 	for _, n := range rn.notifs {
-		_ = n.Close()
+		if n != nil {
+			_ = n.Close()
+		}
 	}
 	rn.sim.abandon()
 	rn.st.xorTreeRepair.ticker.Stop()
@@ -631,6 +701,10 @@ func (rn *c14Run) closeInstance() {
 // doOp performs one operation of the history on the live instance.
 func (rn *c14Run) doOp(i int) error {
 	op := rn.sc.Ops[i]
+	if op.Kind == "redo" {
+		op = rn.sc.Ops[op.Ref] // the caller repeats that operation
+		i = op.Ref             // creator operations refer to themselves; wp and dup do not use i
+	}
 	switch op.Kind {
 	case "pub":
 		return rn.st.Add(c14ctx, rn.txs[i], rn.pays[i])
@@ -753,6 +827,10 @@ type c14Result struct {
 	StopLoop  int // retry loop that hit the stop (-1 = main goroutine)
 	ErrFired  bool  // storage-error runs: the planned error was applied
 	StepLoops []int // life 0: the retry loop that performed step N (-1 = main goroutine)
+	// Scope "op": admissions as read from the store right after each operation ("t0|transaction" -> count), and what was seen
+	// that belongs to other properties (operation returned an error but stored something / returned nil and stored nothing)
+	Admit        map[string]int
+	Inconsistent []string
 }
 
 func (rn *c14Run) pending() map[string]map[string]int {
@@ -773,6 +851,84 @@ func (rn *c14Run) pending() map[string]map[string]int {
 		out[sp.name] = m
 	}
 	return out
+}
+
+// c14Stored is what the store holds about the transaction of an operation (read through the unwrapped store: no step).
+type c14Stored struct{ tx, pay bool }
+
+// c14Target returns the operation whose transaction operation i is about, and that operation's kind after resolving
+// "redo" and "dup" (pub | priv | wp | bad).
+func c14Target(ops []c14Op, i int) (ref int, kind string) {
+	op := ops[i]
+	if op.Kind == "redo" {
+		op = ops[op.Ref]
+	}
+	if op.Kind == "dup" {
+		return op.Ref, ops[op.Ref].Kind
+	}
+	return op.Ref, op.Kind
+}
+
+func (rn *c14Run) stored(i int) c14Stored {
+	ref, _ := c14Target(rn.sc.Ops, i)
+	var out c14Stored
+	if rn.txs[ref] == nil {
+		return out
+	}
+	_ = rn.inner.Read(c14ctx, func(tx stoabs.ReadTx) error {
+		out.tx = rn.st.graph.isPresent(tx, rn.txs[ref].Ref())
+		out.pay = rn.st.payloadStore.isPayloadPresent(tx, rn.txs[ref].PayloadHash())
+		return nil
+	})
+	return out
+}
+
+// corruptBefore applies Scenario.Corrupt: the job shelf of one subscriber already holds an unreadable entry under the key
+// of the event that operation i is going to save.
+func (rn *c14Run) corruptBefore(i int) {
+	at := strings.LastIndex(rn.sc.Corrupt, "@")
+	if at < 0 || rn.sc.Corrupt[at+1:] != strconv.Itoa(i) {
+		return
+	}
+	ref, _ := c14Target(rn.sc.Ops, i)
+	shelf := "_" + c14RegName(rn.sc, rn.sc.Corrupt[:at]) + "_jobs"
+	if err := rn.inner.WriteShelf(c14ctx, shelf, func(w stoabs.Writer) error {
+		return w.Put(stoabs.BytesKey(rn.txs[ref].Ref().Slice()), []byte(`{"type":"transaction","hash":`))
+	}); err != nil {
+		c14Fail("writing the corrupt entry: %v", err)
+	}
+}
+
+// account records the admissions of operation i from its answer and the store: admitted = returned nil AND stored by it.
+func (rn *c14Run) account(res *c14Result, i int, err error, before, after c14Stored) {
+	ref, kind := c14Target(rn.sc.Ops, i)
+	name := "t" + strconv.Itoa(ref)
+	if err != nil {
+		if before != after {
+			res.Inconsistent = append(res.Inconsistent, "returned-error-but-stored|"+kind)
+		}
+		return
+	}
+	switch kind {
+	case "pub", "priv":
+		if !after.tx {
+			res.Inconsistent = append(res.Inconsistent, "returned-nil-but-not-stored|"+kind)
+			return
+		}
+		if before.tx {
+			return // already there: nothing admitted by this call
+		}
+		res.Admit[name+"|"+TransactionEventType]++
+		if kind == "pub" {
+			res.Admit[name+"|"+PayloadEventType]++
+		}
+	case "wp":
+		if !after.pay {
+			res.Inconsistent = append(res.Inconsistent, "returned-nil-but-not-stored|"+kind)
+			return
+		}
+		res.Admit[name+"|"+PayloadEventType]++
+	}
 }
 
 // c14Execute runs one scenario: life 0 with the planned stop (0 = none), restart, Run, quiescence.
@@ -813,7 +969,9 @@ func c14Execute(t testing.TB, sim *c14Sim, sc c14Scenario, txs []Transaction, pa
 		mode, at = fault.Error, sc.ErrAt
 	}
 	rn.kv.NumberReads(sc.Reads)
+	rn.kv.NumberTxReads(sc.TxReads)
 	rn.kv.Arm(fault.Plan{Mode: mode, At: at})
+	res.Admit = map[string]int{}
 	drain := func() {
 		for sim.nParked() > 0 && !rn.kv.Dead() {
 			sim.releaseOldest()
@@ -825,18 +983,31 @@ func c14Execute(t testing.TB, sim *c14Sim, sc c14Scenario, txs []Transaction, pa
 	}
 	stopped := fault.Run(func() {
 		for _, n := range rn.notifs { // the node runs every notifier at start (empty shelves here)
-			_ = n.Run()
+			if n != nil {
+				_ = n.Run()
+			}
 		}
 		for i := range sc.Ops {
 			if rn.kv.Dead() {
 				return
 			}
 			rn.opStart = append(rn.opStart, rn.kv.Steps())
+			if sc.Ops[i].Kind == "redo" && rn.opErr[sc.Ops[i].Ref] != "err" {
+				continue // nothing to repeat: stays "not-run"
+			}
 			rn.opErr[i] = "stopped"
+			var before c14Stored
+			if sc.Scope == "op" {
+				rn.corruptBefore(i)
+				before = rn.stored(i)
+			}
 			err := rn.doOp(i)
 			sim.settle()
 			if rn.kv.Dead() {
 				return
+			}
+			if sc.Scope == "op" {
+				rn.account(res, i, err, before, rn.stored(i))
 			}
 			if err != nil {
 				rn.opErr[i] = "err"
@@ -939,7 +1110,7 @@ func c14Execute(t testing.TB, sim *c14Sim, sc c14Scenario, txs []Transaction, pa
 	}
 	// self-check of the admission bookkeeping: a creator operation counts as admitted iff the transaction is stored after the restart
 	for i, op := range sc.Ops {
-		if (op.Kind == "pub" || op.Kind == "priv") && i < len(res.OpErr) {
+		if (op.Kind == "pub" || op.Kind == "priv") && i < len(res.OpErr) && sc.Scope != "op" {
 			committed := res.OpErr[i] == "ok"
 			if res.OpErr[i] == "stopped" {
 				c := c14CommitAfter(res.Trace, res.OpStart[i], "")
@@ -1016,11 +1187,17 @@ func c14Judge(sc c14Scenario, res *c14Result) []c14Finding {
 	type akey struct{ tx, typ string }
 	admitted := map[akey]int{}
 	private := map[string]bool{}
+	if sc.Scope == "op" {
+		for k, n := range res.Admit {
+			cut := strings.Index(k, "|")
+			admitted[akey{k[:cut], k[cut+1:]}] = n
+		}
+	}
 	for i, op := range sc.Ops {
 		if op.Kind == "priv" {
 			private["t"+strconv.Itoa(i)] = true
 		}
-		if i >= len(res.OpStart) {
+		if i >= len(res.OpStart) || sc.Scope == "op" {
 			continue
 		}
 		committed := false
@@ -1043,7 +1220,17 @@ func c14Judge(sc c14Scenario, res *c14Result) []c14Finding {
 			admitted[akey{"t" + strconv.Itoa(op.Ref), PayloadEventType}]++
 		}
 	}
+	selKind := map[string]string{}
+	for _, sp := range c14Subs(sc.Set) {
+		selKind[sp.name] = sp.sel
+	}
 	selects := func(sub string, k akey) bool {
+		switch selKind[sub] {
+		case "tx":
+			return k.typ == TransactionEventType
+		case "pay":
+			return k.typ == PayloadEventType
+		}
 		switch sub {
 		case "nats":
 			return k.typ == PayloadEventType
@@ -1060,6 +1247,7 @@ func c14Judge(sc c14Scenario, res *c14Result) []c14Finding {
 	}
 	for _, sp := range c14SubsOf(sc) {
 		sub := sp.name
+		late := sub == sc.Late
 		byKey := map[akey][]c14Call{}
 		for _, c := range res.Calls {
 			if c.Sub == sub {
@@ -1074,7 +1262,8 @@ func c14Judge(sc c14Scenario, res *c14Result) []c14Finding {
 			}
 		}
 		for k, n := range admitted {
-			if n == 0 || !selects(sub, k) {
+			if n == 0 || !selects(sub, k) || late {
+				// (a subscriber that registers after the admission is not one of "each registered subscriber" of that admission)
 				continue
 			}
 			cs := byKey[k]
@@ -1095,7 +1284,7 @@ func c14Judge(sc c14Scenario, res *c14Result) []c14Finding {
 			// no call after a recorded completion
 			recorded := false
 			for _, c := range cs {
-				if recorded {
+				if recorded && admitted[k] == 1 {
 					add("called-after-completion", sub, "%s event of %s delivered again (life %d) after its completion had been recorded", k.typ, k.tx, c.Life)
 					break
 				}
@@ -1325,7 +1514,17 @@ func TestVerifC14(t *testing.T) {
 		"(, Add with unknown prev)} x subscriber set {product filters: payload / payload of one type / transaction with PAL; generic: transaction-type filter + " +
 		"unfiltered} x one misbehaving subscriber x script {fail n, incomplete n, fatal, fail for ever} x drain policy {retry loops run after each operation, " +
 		"after the last} x EVERY numbered step of every write transaction as stop point (plus a clean stop at the end); then restart on the same file, " +
-		"re-registration, Run, quiescence; delivery ledger of App. B.7; a case is non-trivial when the stop fired")
+		"re-registration, Run, quiescence; delivery ledger of App. B.7; a case is non-trivial when the stop fired. ADMISSION FAULTS (one storage error per run): " +
+		"subscriber sets of 2 and 3 with overlapping filters (every assignment of {transaction filter, payload filter}; the product's set; names of which one is a " +
+		"prefix of the other's shelf name) x EVERY visiting order of the state's subscriber map (all permutations: the shim's Range is deterministic by name and " +
+		"the registration names carry the rank, so the subscriber whose step fails is visited first, in the middle and last) x admission path {Add with payload, " +
+		"Add without payload, WritePayload; on an empty and a non-empty DAG} x an error answer at EVERY numbered step of the admitting operation: the verification " +
+		"read, begin, every Get / Iterate and every Put of the write transaction (reads inside write transactions are numbered; steps are told apart by the " +
+		"shelf they touch, so each subscriber's own job-shelf Get and Put is failed in turn), commit, and every read / write step of the notifications that follow; " +
+		"the caller repeats a failed operation once. Also: an unreadable entry already stored under the event's key in one subscriber's shelf; one subscriber " +
+		"persisting through another store object (its Save refuses the event); one subscriber registering only after the restart. An operation counts as an " +
+		"admission iff it returned nil and its transaction / payload is stored right after the call; every selected subscriber must then have been called, or still " +
+		"hold the event (delivered by Run after the restart), or list it as failed")
 	r.Assume("one goroutine runs at a time before the crash (retry loops are parked at the overlaid retry-go hooks and released in FIFO order); after " +
 		"the restart retries run freely with zero delay; storage errors (as opposed to stops) are outside this property's quantifier; " +
 		"bbolt's atomic commit is trusted")
@@ -1416,6 +1615,10 @@ func TestVerifC14(t *testing.T) {
 		skipped++
 		return nil
 	}
+	onlyAdm := os.Getenv("C14_ONLY") == "adm" // development aid: run only the admission-fault section
+	if onlyAdm {
+		variants = nil
+	}
 	for vi, v := range variants {
 		// scenarios with long scripts have hundreds of stop points: every worker makes their dry run and the stop points
 		// are dealt round-robin; all other scenarios belong to one worker each
@@ -1502,7 +1705,7 @@ func TestVerifC14(t *testing.T) {
 		}
 	}
 	// restarts from seeded jobs: the persisted number of tries at the moment of the stop is a dimension of its own
-	{
+	if !onlyAdm {
 		tries := map[int]bool{}
 		for _, n := range []int{0, 1, c14Threshold - 1, c14Threshold, c14Threshold + 1, c14Budget - 1, c14Budget} {
 			if n >= 0 {
@@ -1555,7 +1758,7 @@ func TestVerifC14(t *testing.T) {
 		}
 	}
 	// the error value returned by the subscriber: every kind at attempt 1, 2, 3, healthy afterwards, with every stop point
-	{
+	if !onlyAdm {
 		vi := 0
 		for _, pick := range []struct {
 			set, sub string
@@ -1619,7 +1822,7 @@ func TestVerifC14(t *testing.T) {
 	}
 	// storage errors in the delivery bookkeeping, one per run: every read of a job shelf and every step of every job-shelf
 	// transaction (write-back of the retry count, completion delete), in the first delivery and in retry attempts
-	{
+	if !onlyAdm {
 		ehists := [][]c14Op{{{Kind: "pub", Ref: 0}}, {{Kind: "priv", Ref: 0}, {Kind: "wp", Ref: 0}}, {{Kind: "pub", Ref: 0}, {Kind: "pub", Ref: 1}}}
 		ei := 0
 		for _, ops := range ehists {
@@ -1695,6 +1898,18 @@ func TestVerifC14(t *testing.T) {
 				}
 			}
 		}
+	}
+	// storage faults that hit one subscriber's bookkeeping inside the admission transaction (zz_verif_c14_adm_test.go)
+	{
+		adm := c14AdmissionFaults(r, thorough, try, &runs, &skipped)
+		r.AddExtra("admission_fault_variants", adm.variants)
+		r.AddExtra("admission_fault_runs", adm.errRuns)
+		r.AddExtra("admission_faults_on_a_subscribers_own_shelf", adm.onJobs)
+		r.AddExtra("admission_faults_on_the_shelf_of_a_subscriber_not_visited_last", adm.onJobsNotLast)
+		r.AddExtra("corrupt_stored_entry_runs", adm.corrupt)
+		r.AddExtra("save_refused_for_one_subscriber_runs", adm.foreign)
+		r.AddExtra("late_subscriber_runs", adm.late)
+		r.AddExtra("admission_answers_disagreeing_with_store", adm.inconsistent)
 	}
 	r.AddExtra("cases_skipped", skipped)
 	r.AddExtra("restarts_from_seeded_jobs", seeded)
@@ -1793,6 +2008,33 @@ func c14Report(r *ev.Run, sc c14Scenario, res *c14Result) {
 			if sc.ErrAt > 0 {
 				// one storage error (deviation bound 1): the class of the failing step replaces subscriber and stop class
 				sig = "C14|" + f.clause + "|after-storage-error|" + sc.ErrClass + "|" + script
+				if sc.ErrSub != "" {
+					// the failing step touched the job shelf of one subscriber: whose, relative to the subscriber that lost out
+					whose := "another-subscribers-jobs-shelf"
+					if sc.ErrSub == f.sub {
+						whose = "own-jobs-shelf"
+					}
+					sig = "C14|" + f.clause + "|after-storage-error|" + strings.Replace(sc.ErrClass, "jobs-shelf", whose, 1) + "|" + script
+				}
+			}
+			if sc.Corrupt != "" {
+				whose := "another-subscribers-jobs-shelf"
+				if strings.HasPrefix(sc.Corrupt, f.sub+"@") {
+					whose = "own-jobs-shelf"
+				}
+				at, _ := strconv.Atoi(sc.Corrupt[strings.LastIndex(sc.Corrupt, "@")+1:])
+				_, kind := c14Target(sc.Ops, at)
+				sig = "C14|" + f.clause + "|corrupt-stored-entry|admission:" + c14OpName(kind) + "|" + whose + "|" + script
+			}
+			if sc.Foreign != "" {
+				whose := "another-subscriber"
+				if sc.Foreign == f.sub {
+					whose = "this-subscriber"
+				}
+				sig = "C14|" + f.clause + "|save-refused-for-one-subscriber|" + whose + "|" + script
+			}
+			if sc.Late != "" {
+				sig = "C14|" + f.clause + "|with-late-subscriber|" + script + "|" + c14StopClass(res, sc)
 			}
 			if strings.HasPrefix(f.clause, "retried-after-fatal") {
 				sig = "C14|" + f.clause // one defect, one signature: the place of the stop does not matter
